@@ -223,6 +223,7 @@ func main() {
 
 
 func parseRecipeLine(line string) (key string, value string) {
+	line = strings.TrimSpace(line)
 	parts := strings.Fields(line)
 	key = parts[0]
 	value = strings.TrimSpace(line[len(key):])
